@@ -594,6 +594,4 @@ func allPerms(k int) [][]int {
 	return out
 }
 
-
 func init() { register("C15", "proof", runC15) }
-
